@@ -7,3 +7,11 @@ chk("C02","exploration",
  "Generated histories compared after every commit (FinishedSession::root, Overlay::root, Nomt::root, after reopen) with a from-scratch reference Merkle-Patricia trie over the model map, written from the specification with blake3/sha2 crates only.",
  "Trusts the independent reference trie (self-tested against hand values and build_trie) and hash collision resistance.",
  "property-based testing: model-based oracle with independent reference trie (proptest)","DESIGN.md §3 C02")
+chk("C05","exploration",
+ "At every step of generated histories (incl. sessions on uncommitted overlay chains, after reopen, tiny page cache) proofs for present and absent query keys are requested and judged against the model: verification against the session root (nomt verifier and an independent hash chain), confirm_value / confirm_nonexistence verdicts, and equality of siblings/terminal with a reference trie lookup.",
+ "Trusts the reference trie and model. Query keys are sampled (bit flips at random depths), not all 2^256.",
+ "property-based testing: model-based oracle + reference trie lookup (proptest)","DESIGN.md §3 C05")
+chk("C06","exploration",
+ "Every generated session commit runs with witnessing on; the witness is replayed by the stateless verifier (path verification, per-key read attestation, verify_update) and checked for completeness against the batch and for agreement with the store's reported root and the reference root.",
+ "Trusts reference trie/model. Worker interleavings are whatever the runs produce (sampled).",
+ "property-based testing: stateless-verifier replay + completeness oracle (proptest)","DESIGN.md §3 C06")
